@@ -59,6 +59,14 @@ pub fn run_workers(check: &str, tier: &str, seed: u64, n_cases: u64, jobs: usize
          match running[i].0.try_wait() {
             Ok(Some(status)) => {
                let (_, out, range) = running.remove(i);
+               if status.code() == Some(3) {
+                  // the worker's wall-clock watchdog fired: one execution never reached a scheduling point
+                  let hang = out.with_extension("hang.json");
+                  for (c, _, _) in running.iter_mut() {
+                     let _ = c.kill();
+                  }
+                  report_hang(check, &hang);
+               }
                if !status.success() {
                   harness_error(&format!(
                      "worker for cases {}..{} of {} ended with {:?} (log: {})",
@@ -205,9 +213,16 @@ pub fn check_main(id: &str, tier: &str) -> ! {
       match crate::engine_b::run_all(id, thorough, seed, &dir, jobs.min(8)) {
          Ok(rep) => {
             engine_b = rep.evidence;
-            if let Some((mut job, out)) = rep.violation {
-               unlisted += 1;
+            for (mut job, out) in rep.reports {
                let class = out.class.clone().unwrap();
+               if let Some(e) = known::matching_miri(&known_entries, id, &class, &out.repo_frame) {
+                  *known_hit.entry(e.what.clone()).or_insert(0) += 1;
+                  continue;
+               }
+               unlisted += 1;
+               if reported.is_some() {
+                  continue;
+               }
                let name = format!("{}-miri-{}-{}.json", id, job.scenario, job.input_seed);
                let path = PathBuf::from("/verif/replays").join(&name);
                job.violation = Some(crate::case::ViolationInfo { property: id.to_string(), class: class.clone(), detail: out.detail.clone(), trace_hash: 0 });
@@ -324,4 +339,23 @@ pub fn selfcheck_main(checks: &[String], n_cases: u64) -> ! {
    }
    println!("selfcheck ok: {} executions compared", total);
    std::process::exit(0)
+}
+
+/// A worker reported an execution that spins without reaching a scheduling point. Confirm it by
+/// replaying the case in a fresh process (which has the same watchdog), then report it.
+fn report_hang(check: &str, hang_file: &Path) -> ! {
+   let text = std::fs::read_to_string(hang_file).unwrap_or_else(|e| harness_error(&format!("watchdog fired but {} is unreadable: {}", hang_file.display(), e)));
+   let case: crate::case::Case = serde_json::from_str(&text).unwrap_or_else(|e| harness_error(&format!("bad hang file: {}", e)));
+   std::fs::create_dir_all("/verif/replays").ok();
+   let path = PathBuf::from(format!("/verif/replays/{}-hang-{}.json", check, case.index));
+   std::fs::write(&path, serde_json::to_string_pretty(&case).unwrap()).unwrap();
+   match replay_subprocess(&path) {
+      Ok(r) if r.class.as_deref() == Some("no-termination") => {
+         println!("violation: no-termination: case {} ({}) spins for more than {} s of wall clock without reaching a scheduling point", case.index, case.label, crate::worker::HANG_LIMIT_S);
+         println!("VIOLATION property={} replay={}", check, path.display());
+         std::process::exit(1)
+      },
+      Ok(r) => harness_error(&format!("a worker's watchdog fired on case {} but the replay ended with {:?}", case.index, r.class)),
+      Err(e) => harness_error(&format!("a worker's watchdog fired on case {} and the replay failed: {}", case.index, e)),
+   }
 }
